@@ -2,14 +2,18 @@ def obligations(tier):
     T = tier == "thorough"
     ml = 40 if T else 20
     obs = []
-    for ent, nm, what in (("h_wait", "reader-wait", "netbuf_read_wait(k) from an arbitrary window: immediate success iff k bytes are already buffered; else one read request at buf+datalen with capacity to the end of the allocation and minimum = missing bytes; growth (doubling or to k) and memmove compaction preserve the unconsumed bytes; refusal leaves nothing pending; cancel undoes exactly what was pending"),
-                          ("h_complete", "reader-complete", "completion with any n in [min, cap], EOF or error: exactly one callback (0 / 1 / -1); on success k unconsumed bytes visible starting at the first unconsumed byte"),
+    for ent, nm, what in (("h_wait", "reader-wait", "netbuf_read_wait(k) from an arbitrary window: immediate success iff k bytes are already buffered; else one read request at buf+datalen with capacity to the end of the allocation and minimum between 1 and the missing bytes; growth (doubling or to k) and memmove compaction preserve the unconsumed bytes; refusal leaves nothing pending; cancel undoes exactly what was pending"),
+                          ("h_complete", "reader-complete", "wait(k) then up to two completions with any n in [min, cap], EOF or error: received bytes are accounted for at once; success is reported exactly once and only when k unconsumed bytes are there; otherwise the reader keeps reading right after the data; EOF -> 1, error or refusal -> -1, once"),
                           ("h_misc", "reader-consume-init", "consume(j) drops exactly j bytes; scheduled success delivered once; init gives an empty 4096-byte reader")):
-      lens = [None] if ent != "h_wait" else ([0, 1, 2, 3, 4, 5, 7, 8, 9, 12, 16, 17, 20] + ([33, 40] if T else []))
+      lens = [None] if ent == "h_misc" else [1, 2, 3, 4, 5, 8] if ent == "h_complete" else ([0, 1, 2, 3, 4, 5, 7, 8, 9, 12, 16, 17, 20] + ([33, 40] if T else []))
       for wl in lens:
         obs.append(dict(name=nm + ("" if wl is None else "-k%d" % wl), harness="rd.c", entry=ent, defs=["MAXLEN=%d" % ml] + ([] if wl is None else ["WLEN=%d" % wl]), unwind=12, backends=["cadical"], timeout=1800 if T else 280, claim=what,
                         bounds="buffer sizes 1, 4, 8 with every bufpos <= datalen <= buflen; wait length k = %s (one obligation per k; k > 2x buffer forces growth to k)" % ("symbolic" if wl is None else wl),
                         stubs=["network_read/network_read_cancel, events_immediate_register/cancel -> recording models"]))
+    for wl in [2, 3, 5, 8, 9, 17]:
+        obs.append(dict(name="reader-cancel-after-partial-k%d" % wl, harness="rd.c", entry="h_partial_cancel", defs=["MAXLEN=%d" % ml, "WLEN=%d" % wl], unwind=12, backends=["cadical"], timeout=1800 if T else 280,
+                        claim="a wait(k=%d) cancelled after the transport delivered any p >= 1 bytes of it (fewer than needed, or enough): those bytes are still buffered, in order, after the cancel" % wl,
+                        bounds="buffer sizes 4, 8; k = %d; p in [1, capacity]" % wl, stubs=["network_read -> recording model of network.h: bytes land in the request's buffer as they arrive, callback once minread are there"]))
     # ---- writer (netbuf_write.c)
     to = 1800 if T else 280
     wst = ["memcpy in netbuf_write_write -> single-observation copy (one arbitrary index, room for all n checked)", "network_write/network_write_cancel -> recording models of network.h's contract (non-zero length asserted by the real one)", "setsockopt -> arbitrary result"]
